@@ -13,5 +13,5 @@ def replay(obj):
     if obj.get("unit") == "improve":
         from vt.props import c06_improve
         return c06_improve.replay(obj)
-    import json
-    print(json.dumps(obj, indent=1)[:4000])
+    from vt import envreplay
+    return envreplay.replay(obj, "C06")
